@@ -449,9 +449,15 @@ pub trait RiRefBufImpl: Sized + RiRefImpl {
 					path_buffer.path_mut().normalize();
 				}
 
-				path_buffer
-					.path_mut()
-					.symbolic_append(self.path().segments());
+				let mut merged = path_buffer.path_mut();
+				merged.symbolic_append(self.path().segments());
+				// Popping a shielded empty segment leaves its `.` shield behind.
+				merged.normalize();
+				if matches!(merged.as_bytes(), b"/./" | b"./") {
+					// A lone empty segment is the trailing `/` of the removed
+					// dot segments: `//a` + `..` is `/`.
+					merged.clear()
+				}
 
 				self.set_path(path_buffer.path());
 			}
